@@ -103,7 +103,7 @@ var targets = []target{
 // Primitives that put something on the wire (or wait for the device); number of leading
 // arguments that are shown.
 var sendPrims = map[string]int{
-	"WaitLogin": 0, "WaitShort": 0, "IssueCmd": 1, "SendCmd": 1, "GetCmdOutput": 1, "Send": 1,
+	"WaitLogin": 1, "WaitShort": 1, "IssueCmd": 2, "SendCmd": 1, "GetCmdOutput": 1, "Send": 1,
 	"GetOutput": 0, "TryPrompt": 0,
 	"httpPrefixGetLog": 1, "httpGet": 1, "sendRequest": 2, "PostForm": 1, "Get": 1, "Do": 1,
 }
@@ -140,7 +140,7 @@ var fullArgs = map[string]bool{
 // Assignments that are kept (text of the left-hand side).
 var watch = map[string]bool{
 	"bannerLines": true, "s.errUnmanaged": true, "devName": true, "isCompare": true, "action": true,
-	"logFile": true, "err": false,
+	"logFile": true, "out": true, "lines": true, "stdPrompt": true, "passPrompt": true, "name": true, "err": false,
 }
 
 var problems []string
@@ -177,6 +177,36 @@ func (x *ex) sub(f func()) []item {
 	got := x.items
 	x.items = save
 	return got
+}
+
+// assignText: the statement text; a call of a wire primitive on the right-hand side (whose item
+// precedes) is abbreviated to <reply>.
+func assignText(v *ast.AssignStmt) string {
+	if len(v.Rhs) != 1 {
+		return text(v)
+	}
+	lhs := make([]string, len(v.Lhs))
+	for i, l := range v.Lhs {
+		lhs[i] = text(l)
+	}
+	return strings.Join(lhs, ", ") + " " + v.Tok.String() + " " + abbrevExpr(v.Rhs[0])
+}
+
+func abbrevExpr(e ast.Expr) string {
+	if c, ok := e.(*ast.CallExpr); ok {
+		qual, name := calleeName(c.Fun)
+		if sendPrimOf(qual, name) >= 0 {
+			return "<reply>"
+		}
+		if qual == "strings" || qual == "" {
+			args := make([]string, len(c.Args))
+			for i, a := range c.Args {
+				args[i] = abbrevExpr(a)
+			}
+			return text(c.Fun) + "(" + strings.Join(args, ", ") + ")"
+		}
+	}
+	return text(e)
 }
 
 func argText(e ast.Expr) string {
@@ -344,7 +374,7 @@ func (x *ex) stmt(s ast.Stmt, d int) {
 		emitted := false
 		for _, l := range v.Lhs {
 			if watch[text(l)] {
-				x.emit(d, "assign", text(v))
+				x.emit(d, "assign", assignText(v))
 				emitted = true
 				break
 			}
@@ -428,10 +458,14 @@ func (x *ex) stmt(s ast.Stmt, d int) {
 		if rets && len(v.Results) > 0 {
 			parts := make([]string, len(v.Results))
 			for i, r := range v.Results {
-				if _, ok := r.(*ast.CallExpr); ok {
-					// the call item precedes; keep the text short
-					_, n := calleeName(r.(*ast.CallExpr).Fun)
-					parts[i] = n + "(…)"
+				if c, ok := r.(*ast.CallExpr); ok {
+					// the call item precedes; keep the text short (string predicates are kept in full)
+					q, n := calleeName(c.Fun)
+					if q == "strings" {
+						parts[i] = text(r)
+					} else {
+						parts[i] = n + "(…)"
+					}
 				} else {
 					parts[i] = text(r)
 				}
